@@ -14,8 +14,10 @@ Sub-checks
     opv         OPV / GenotypeBuilder latent functions; OPV of a set bounds the OHV of every cross inside it
     history     ONE problem object (OPV / GenotypeBuilder / the four OHV classes) driven through a drawn history of
                 "evaluate" (latentfn or evalfn), "assign new block values through the public setter" (haplomat / ohvmat,
-                new genotypes and effects, possibly a new number of blocks), "assign nbestfndr"; after every step the value
-                reported must be the definition applied to the block values the object holds NOW
+                new genotypes and effects, possibly a new number of blocks), "edit the block values in place" (write into
+                the array the public getter returns, or into the caller's own buffer that was handed to the constructor /
+                setter: whole array replaced, some taxa replaced, or scaled), "assign nbestfndr"; after every step the
+                value reported must be the definition applied to the block values the object holds NOW
 
 Oracles are Python loops with math.fsum over the raw 0/1 calls and effects, on a partition computed by the harness from
 the marker positions (numpy.linspace edges, closed bins, a marker on an inner boundary belongs to the later bin).
@@ -59,8 +61,12 @@ ASSUMPTIONS = [
     "assignment the optimal values it reports are those of the block values it holds now (its own public attribute), "
     "whatever was evaluated before. The assigned block values are computed by the harness from new 0/1 genotypes and "
     "effects on the same markers (an equal-width bin without a marker contributes the empty sum 0.0); ploidy, number of "
-    "taxa and traits stay fixed over the history, the number of blocks may change. In-place edits of the array returned "
-    "by the getter are NOT exercised (nothing promises that they are observed). OHV objects are evaluated on a single "
+    "taxa and traits stay fixed over the history, the number of blocks may change. In-place edits (writes into the array "
+    "the public getter returns, or into the caller's buffer handed to the constructor / setter) are exercised; what the "
+    "object holds after such an edit is decided by reading its public getter: the new values (then the oracle is the "
+    "definition on the new data), the old values (an implementation that copies: oracle stays on the old data) or "
+    "neither (history abandoned, counted by a label). Nothing is asserted about WHETHER an edit is observed, only that "
+    "the values reported agree with the block values the public attribute shows at the time of the call. OHV objects are evaluated on a single "
     "cross (one-hot vector for the Real/Integer/Binary classes) so that any aggregate over the selection equals that "
     "cross's OHV. obj_wt=1.0 is passed explicitly; the identity objective transformation is the documented default.",
 ]
@@ -319,13 +325,19 @@ HIST_G = st.fixed_dictionaries({
 
 @st.composite
 def history_op(draw):
-    kind = draw(st.sampled_from(["eval", "eval", "eval", "set", "set", "nbest"]))
+    kind = draw(st.sampled_from(["eval", "eval", "eval", "eval", "set", "set", "edit", "edit", "nbest"]))
     if kind == "eval":
         return ["eval", [draw(st.integers(0, 10 ** 6)) for _ in range(draw(st.integers(1, 5)))],
                 draw(st.sampled_from(["latentfn", "latentfn", "evalfn"]))]
     if kind == "set":
         # new genotypes and effects on the same markers; optionally re-partitioned into another number of blocks
         return ["set", draw(HIST_G), draw(st.one_of(st.none(), st.none(), st.integers(0, 10 ** 6)))]
+    if kind == "edit":
+        # in-place edit of the block-value array (same shape): through the array the getter returns, or through the
+        # caller's own buffer; whole array <- new genotypes and effects / some taxa <- new genotypes / array *= k
+        return ["edit", draw(HIST_G), draw(st.sampled_from(["getter", "buffer"])),
+                draw(st.sampled_from(["replace", "replace", "partial", "scale"])),
+                draw(st.integers(0, 10 ** 6)), draw(st.sampled_from([2.0, 0.5, -1.0, -4.0]))]
     return ["nbest", draw(st.integers(0, 10 ** 6))]
 
 
@@ -340,7 +352,7 @@ def history_case(draw):
             "nparent": draw(st.sampled_from([1, 2, 2, 3])),
             "unique": draw(st.booleans()),
             "nbest_raw": draw(st.integers(0, 10 ** 6)),
-            "ops": draw(st.lists(history_op(), min_size=3, max_size=8))}
+            "ops": draw(st.lists(history_op(), min_size=3, max_size=9))}
 
 
 # ----------------------------------------------------------------------------------------------------------------------
@@ -856,7 +868,10 @@ def block_state(chroms, total, g, gspec, p):
     produced by the harness here and handed to the object through its public constructor / setter)."""
     spec = dict(g)
     spec.update(gspec)
-    geno, u = build_geno(spec, p), build_u(spec, p)
+    return block_state_arrays(chroms, total, build_geno(spec, p), build_u(spec, p))
+
+
+def block_state_arrays(chroms, total, geno, u):
     nblk = ref_apportion(total, chroms)
     labels, empty, _ = ref_labels(chroms, nblk)
     bv = ref_blockvalues(geno, u, labels, total)
@@ -942,6 +957,10 @@ def check_history(case, ctx):
     evaluated = False          # the object has been used at least once
     modified_after_use = False
     nsets = 0
+    nedits = 0
+    edited_after_use = False
+    set_after_use = False
+    last_change = None
     for op in case["ops"]:
         name = op[0]
         if name == "nbest" and kind != "gb":
@@ -965,12 +984,83 @@ def check_history(case, ctx):
                     prob.haplomat = assigned
             snap = assigned.copy()
             nsets += 1
+            last_change = "setter"
+            edited_after_use = False
             if evaluated:
                 modified_after_use = True
+                set_after_use = True
             got_attr = prob.ohvmat if kind == "ohv" else prob.haplomat
             ctx.check(isinstance(got_attr, numpy.ndarray) and got_attr.shape == snap.shape and bool((got_attr == snap).all()),
                       "history.getter_returns_assigned_values",
                       lambda: "assigned %s, attribute reads %s" % (snap.tolist(), numpy.asarray(got_attr).tolist()))
+            continue
+        if name == "edit":
+            gspec, via, extent, raw, fac = op[1], op[2], op[3], int(op[4]), float(op[5])
+            if via == "buffer" and assigned is None:
+                via = "getter"                     # built by from_pgmat_gpmod: the caller never owned the array
+            spec = dict(g)
+            spec.update(gspec)
+            if extent == "replace":                # new genotypes and effects on the same markers and blocks
+                new = block_state_arrays(chroms, state["total"], build_geno(spec, p), build_u(spec, p))
+                rows = list(range(n))
+            elif extent == "partial":              # some taxa replaced by new genotypes, effects unchanged
+                rows = sorted(set([raw % n] + [i for i in range(n) if (raw >> (i + 3)) & 1]))
+                geno2 = state["geno"].copy()
+                geno2[:, rows, :] = build_geno(spec, p)[:, rows, :]
+                new = block_state_arrays(chroms, state["total"], geno2, state["u"])
+            else:                                  # every block value multiplied by a power of two (= effects scaled)
+                if kind == "ohv":
+                    fac = abs(fac)                 # an OHV matrix scales with the effects only for a positive factor
+                new = block_state_arrays(chroms, state["total"], state["geno"], state["u"] * fac)
+                rows = list(range(n))
+            want = numpy.array(ref_ohv(new), dtype="float64").reshape(nx, t) if kind == "ohv" else new["hm"]
+            old = (prob.ohvmat if kind == "ohv" else prob.haplomat).copy()
+            target = assigned if via == "buffer" else (prob.ohvmat if kind == "ohv" else prob.haplomat)
+            writable = isinstance(target, numpy.ndarray) and target.flags.writeable and target.shape == want.shape
+            ctx.label("inplace_edit_target_not_writable", not writable)
+            if not writable:
+                continue
+
+            def write(arr):
+                if extent == "scale":
+                    arr *= fac                     # `arr` is a local name: no setter is involved
+                elif extent == "partial" and kind != "ohv":
+                    arr[:, rows, :, :] = want[:, rows, :, :]
+                elif extent == "partial":
+                    for r in range(nx):
+                        if any(i in rows for i in xm[r]):
+                            arr[r, :] = want[r, :]
+                else:
+                    arr[...] = want
+
+            shown = old.copy()                     # what the attribute shows if the object holds the edited array
+            write(shown)
+            write(target)
+            del target
+            # what the object holds now is what its public attribute shows
+            cur = prob.ohvmat if kind == "ohv" else prob.haplomat
+            if not (isinstance(cur, numpy.ndarray) and cur.shape == want.shape):
+                ctx.label("inplace_edit_outcome_undetermined")
+                return
+            if bool((cur == shown).all()):
+                state = new
+                ctx.label("inplace_edit_shown_by_getter")
+            elif bool((cur == old).all()):
+                ctx.label("inplace_edit_not_shown_by_getter(object_holds_a_copy)")
+            else:
+                ctx.label("inplace_edit_outcome_undetermined")
+                return
+            snap = cur.copy()
+            if assigned is not None and not bool((assigned == snap).all()):
+                assigned = None                    # the object holds a copy: only the attribute is compared from now on
+            nedits += 1
+            last_change = "inplace_edit(%s,%s)" % (via, extent)
+            ctx.label("inplace_edit_via=" + via)
+            ctx.label("inplace_edit_extent=" + extent)
+            ctx.label("inplace_edit_changes_values", not bool((old == cur).all()))
+            if evaluated:
+                modified_after_use = True
+                edited_after_use = True
             continue
         if name == "nbest":
             nbest = 1 + int(op[1]) % n
@@ -984,7 +1074,7 @@ def check_history(case, ctx):
         via = op[2]
         ctx.label("via=" + via)
         bv, scale, tot, total = state["bv"], state["scale"], state["tot"], state["total"]
-        after = "after_setter" if nsets else "as_built"
+        after = ("after_" + last_change) if last_change else "as_built"
         if kind == "ohv":
             ci = int(op[1][0]) % nx
             if prob.__class__.__name__.startswith("OptimalHaploidValueSubset"):
@@ -1010,7 +1100,9 @@ def check_history(case, ctx):
                 lat = res[0]
             else:
                 lat = prob.latentfn(xa)
-        ctx.label("evaluated_again_after_setter_after_evaluation", modified_after_use)
+        ctx.label("evaluated_again_after_setter_after_evaluation", set_after_use)
+        ctx.label("evaluated_again_after_inplace_edit_after_evaluation", edited_after_use)
+        ctx.label("evaluated_again_after_inplace_edit_after_evaluation:" + kind, edited_after_use)
         ctx.nontrivial(modified_after_use)
         evaluated = True
         ok = ctx.check(numpy.shape(lat) == (t,), "history.latent_shape", lambda: "%s" % (numpy.shape(lat),))
@@ -1048,9 +1140,11 @@ def check_history(case, ctx):
         # evaluation must not alter the block values the object holds
         if snap is not None:
             cur = prob.ohvmat if kind == "ohv" else prob.haplomat
-            ctx.check(cur.shape == snap.shape and bool((cur == snap).all()) and bool((assigned == snap).all()),
+            ctx.check(cur.shape == snap.shape and bool((cur == snap).all())
+                      and (assigned is None or bool((assigned == snap).all())),
                       "history.evaluation_altered_block_values")
     ctx.label("history_has_setter", nsets > 0)
+    ctx.label("history_has_inplace_edit", nedits > 0)
 
 
 SUBCHECKS = [
@@ -1078,10 +1172,16 @@ SUBCHECKS = [
              required_labels=("empty_equal_width_bin",)),
     SubCheck("history", check_history, history_case(), quick=300, thorough=2500, shards_quick=4,
              rule="one OPV / GenotypeBuilder / OHV problem object (built by from_pgmat_gpmod or by its constructor) x a history of "
-                  "2-8 operations: evaluate (latentfn / evalfn), assign new block values through the public haplomat / ohvmat "
-                  "setter (new genotypes and effects, same or new number of blocks), assign nbestfndr; non-trivial = an "
-                  "evaluation that follows a public-setter modification that itself followed an earlier evaluation",
+                  "3-9 operations: evaluate (latentfn / evalfn), assign new block values through the public haplomat / ohvmat "
+                  "setter (new genotypes and effects, same or new number of blocks), edit the block values in place (through "
+                  "the getter's array or the caller's buffer; replace / some taxa / scale), assign nbestfndr; non-trivial = an "
+                  "evaluation that follows a modification (setter or in-place) that itself followed an earlier evaluation",
              required_labels=("evaluated_again_after_setter_after_evaluation", "object=opv", "object=gb", "object=ohv",
                               "built_by=from_pgmat_gpmod", "built_by=constructor", "set_changes_number_of_blocks",
-                              "via=evalfn", "nbestfndr_assigned_after_use")),
+                              "via=evalfn", "nbestfndr_assigned_after_use",
+                              "evaluated_again_after_inplace_edit_after_evaluation:opv",
+                              "evaluated_again_after_inplace_edit_after_evaluation:gb",
+                              "evaluated_again_after_inplace_edit_after_evaluation:ohv",
+                              "inplace_edit_via=getter", "inplace_edit_via=buffer", "inplace_edit_extent=replace",
+                              "inplace_edit_extent=partial", "inplace_edit_extent=scale", "inplace_edit_shown_by_getter")),
 ]
